@@ -1262,6 +1262,12 @@ func importsBindTheModulesOwnObjects(c *core.Ctx) {
 				}
 			}
 		}
+		// (with the methods that the clause hands its work to)
+		for _, h := range t.HelpersOf(name) {
+			if hd := p.Decl(h); hd != nil && hd.Body != nil {
+				body = append(append([]ast.Stmt(nil), body...), hd.Body.List...)
+			}
+		}
 		for _, s := range body {
 			ast.Inspect(s, func(nd ast.Node) bool {
 				call, ok := nd.(*ast.CallExpr)
@@ -2250,8 +2256,8 @@ func scratchBuffersStayInTheVM(c *core.Ctx) {
 							leak = "boxed at " + p.Pos(x.Pos())
 						case ssa.CallInstruction:
 							cc := x.Common()
-							if bi, ok := cc.Value.(*ssa.Builtin); ok && (bi.Name() == "len" || bi.Name() == "copy" || bi.Name() == "cap") {
-								continue
+							if bi, ok := cc.Value.(*ssa.Builtin); ok && (bi.Name() == "len" || bi.Name() == "copy" || bi.Name() == "cap" || bi.Name() == "clear") {
+								continue // these read or overwrite the elements and keep nothing
 							}
 							cal := cc.StaticCallee()
 							if cal == nil || cal.Pkg == nil || core.RelPkg(cal.Pkg.Pkg) != "vm" || cal.Blocks == nil {
